@@ -57,7 +57,8 @@ func (e *esdt) createNewTokenIdentifier(caller []byte, ticker []byte) (r []byte,
 
 loop 1
   invariant 0 <= i && i <= 50
-  invariant 0 <= big(newRandomAsBigInt) - i && big(newRandomAsBigInt) - i < 16777216
+  invariant 0 <= big(newRandomAsBigInt) && big(newRandomAsBigInt) < 16777216
+  invariant big(maxRandom) == 16777216
   invariant big(one) == 1
   invariant base(tickerPrefix) != base(caller) && (base(tickerPrefix) == base(ticker) ==> off(tickerPrefix) == off(ticker)) && len(tickerPrefix) == len(ticker) + 1
   invariant forall k :: 0 <= k && k < len(ticker) ==> tickerPrefix[k] == old(ticker[k])
